@@ -103,7 +103,13 @@ func genC18(t *rapid.T) C18Case {
 		f.Quo(f, big.NewInt(4))
 		c.Tip = f.String()
 	}
-	if rapid.IntRange(0, 4).Draw(t, "create") > 0 {
+	switch rapid.IntRange(0, 9).Draw(t, "create") {
+	case 0, 1:
+		// contract creation
+	case 2:
+		// recipients that look special: the zero address, a precompile, the all-ones address
+		c.To = rapid.SampledFrom([]string{"0x0000000000000000000000000000000000000000", "0x0000000000000000000000000000000000000001", "0x0000000000000000000000000000000000000800", "0xFFfFfFffFFfffFFfFFfFFFFFffFFFffffFfFFFfF"}).Draw(t, "to-special")
+	default:
 		c.To = common.BytesToAddress(rapid.SliceOfN(rapid.Byte(), 20, 20).Draw(t, "to")).Hex()
 	}
 	c.Value = genAmount256(t, "value")
